@@ -478,3 +478,155 @@ Proof.
     + intros d0 p0 a0 Hp0 Ha0. cbn. exists a0. split; [exact Ha0|]. unfold w_in, w_out. cbn.
       split; [lia|]. split; [lia|]. split; [lia|]. split; [lia|]. exact (inv_lim _ _ _ _ I Hp0 Ha0).
 Qed.
+
+Lemma w_nonneg s : Inv s -> forall d k v, In (k, v) (st_contracts s) ->
+  0 <= w_esc d v /\ 0 <= w_in d v /\ 0 <= w_out d v.
+Proof.
+  intros I d k v Hin. destruct (inv_wfc _ I _ _ Hin) as (_ & Hpos & _).
+  pose proof (amt_of_nonneg _ d Hpos) as Hnn. unfold w_esc, w_in, w_out, amt.
+  destruct (openb v && locksb v), (openb v && is_in v), (openb v && is_out v); lia.
+Qed.
+
+Lemma esc_ge s id c d : Inv s -> get id (st_contracts s) = Some c -> w_esc d c <= bal (st_bank s) ESC d.
+Proof.
+  intros I Hg. rewrite (inv_esc _ I). apply (wsum_get_le (w_esc d) _ id c); [|exact Hg].
+  intros k v Hin. apply (w_nonneg _ I d k v Hin).
+Qed.
+
+Lemma esc_nonneg s d : Inv s -> 0 <= bal (st_bank s) ESC d.
+Proof.
+  intros I. rewrite (inv_esc _ I). apply wsum_nonneg. intros k v Hin. apply (w_nonneg _ I d k v Hin).
+Qed.
+
+Lemma in_out_ge s id c d p a : Inv s -> get id (st_contracts s) = Some c ->
+  get_param (st_params s) d = Some p -> get d (st_assets s) = Some a ->
+  w_in d c <= as_in a /\ w_out d c <= as_out a.
+Proof.
+  intros I Hg Hp Ha. destruct (inv_asset _ I d p Hp) as (a0 & Ha0 & Hin & Hout & _).
+  rewrite Ha in Ha0. inversion Ha0; subst a0. rewrite Hin, Hout. split.
+  - apply (wsum_get_le (w_in d) _ id c); [|exact Hg]. intros k v Hi. apply (w_nonneg _ I d k v Hi).
+  - apply (wsum_get_le (w_out d) _ id c); [|exact Hg]. intros k v Hi. apply (w_nonneg _ I d k v Hi).
+Qed.
+
+Lemma with_asset_ok s d f a p a' : get d (st_assets s) = Some a -> get_param (st_params s) d = Some p ->
+  f p a = Some a' ->
+  with_asset s d f = Some (mkSt (st_params s) (st_contracts s) (st_queue s) (st_bank s) (st_supply s)
+                                (set d a' (st_assets s)) (st_prev s) (st_height s) (st_time s) (st_log s) (st_win s)).
+Proof. intros Ha Hp Hf. unfold with_asset. rewrite Ha, Hp, Hf. reflexivity. Qed.
+
+Definition close_body (s : state) (id : cid) (c : contract) : option state :=
+  if c_transfer c then claim_htlt s id c else pay_out s id (c_to c) (c_amount c).
+
+(** in a reachable state the body of a claim on an open contract always succeeds, and the claim
+    has the closing shape *)
+Lemma claim_complete s id c : Inv s -> get id (st_contracts s) = Some c -> c_state c = Open ->
+  exists s1, close_body s id c = Some s1
+    /\ close_rel s (dequeue (set_contract s1 id (close c Completed (st_height s))) (c_exp c) id) id c Completed.
+Proof.
+  intros I Hg Ho.
+  destruct (inv_wfc _ I _ _ (get_In _ _ _ Hg)) as (Hid & Hpos & Hs1 & Hs2 & Ht1 & Ht2 & Hkind).
+  assert (Hbl : blocked (c_to c) = false) by (unfold blocked; apply Z.eqb_neq; exact Ht2).
+  assert (Hescto : (ESC =? c_to c) = false) by (apply Z.eqb_neq; congruence).
+  assert (Hne : ESC <> c_to c) by congruence.
+  unfold close_body. destruct (c_transfer c) eqn:Htr.
+  - destruct Hkind as [(d & x & Ham & Hpn) Hdir].
+    destruct (get_param (st_params s) d) as [p|] eqn:Hp; [clear Hpn|congruence].
+    destruct (inv_asset _ I d p Hp) as (a & Ha & Hain & Haout & Hacur & Hasup & (L1 & L2 & L3 & L4) & Hawin).
+    destruct (in_out_ge _ _ _ d p a I Hg Hp Ha) as [Gin Gout].
+    pose proof (esc_ge _ _ _ d I Hg) as Gesc. pose proof (esc_nonneg _ d I) as Gnn.
+    assert (Hx : 0 < x) by (rewrite Ham in Hpos; inversion Hpos; assumption).
+    unfold w_in, w_out, w_esc, locksb, is_in, is_out, openb, amt in Gin, Gout, Gesc.
+    rewrite Ho, Htr, Ham in Gin, Gout, Gesc. cbn in Gin, Gout, Gesc. rewrite Z.eqb_refl in Gin, Gout, Gesc.
+    unfold claim_htlt. rewrite Ham.
+    destruct (c_dir c) eqn:Hd; [congruence| |].
+    + (* incoming: decrement incoming, increment current, mint, pay the recipient *)
+      cbn in Gin.
+      assert (F1 : dec_incoming x p a = Some (mkAS (as_in a - x) (as_out a) (as_cur a) (as_tlc a) (as_el a))).
+      { unfold dec_incoming. replace (as_in a - x <? 0) with false by (symmetry; apply Z.ltb_ge; lia). reflexivity. }
+      rewrite (with_asset_ok _ _ _ _ _ _ Ha Hp F1).
+      set (a1 := mkAS (as_in a - x) (as_out a) (as_cur a) (as_tlc a) (as_el a)).
+      set (a2 := mkAS (as_in a - x) (as_out a) (as_cur a + x) (if ap_tl p then as_tlc a + x else as_tlc a) (as_el a)).
+      assert (F2 : inc_current x p a1 = Some a2).
+      { unfold inc_current, a1, a2. cbn.
+        replace (ap_limit p <? as_cur a + x) with false by (symmetry; apply Z.ltb_ge; lia).
+        destruct (ap_tl p) eqn:Htl; [|reflexivity].
+        pose proof (L4 eq_refl).
+        replace (ap_tbl p <? as_tlc a + x) with false by (symmetry; apply Z.ltb_ge; lia). reflexivity. }
+      match goal with |- context [with_asset ?s1 d (inc_current x)] =>
+        rewrite (with_asset_ok s1 d (inc_current x) a1 p a2 (get_set_same _ _ _) Hp F2) end.
+      unfold pay_out. rewrite Hbl. unfold add_win, mint, set_bank_log. sproj. cbn [credit_coins].
+      destruct (send_coins_ok [(d, x)] (credit (st_bank s) ESC d x) ESC (c_to c) Hne) as [l' Hsend].
+      { rewrite <- Ham. exact Hpos. }
+      { intros d0. cbn. destruct (Z.eqb_spec d d0) as [->|Hdd].
+        - rewrite bal_credit_same. lia.
+        - rewrite bal_credit_other by pne. pose proof (esc_nonneg _ d0 I). lia. }
+      rewrite Hsend. eexists. split; [reflexivity|].
+      unfold dequeue, set_contract. constructor; sproj; try reflexivity; try assumption; try discriminate.
+      * intros d0. rewrite (send_coins_bal _ _ _ _ _ Hne Hsend ESC d0). rewrite Z.eqb_refl, Hescto.
+        unfold w_esc, locksb, is_out. rewrite Htr, Hd. cbn. rewrite andb_false_r.
+        destruct (Z.eqb_spec d d0) as [->|Hdd].
+        -- rewrite bal_credit_same. lia.
+        -- rewrite bal_credit_other by pne. lia.
+      * intros d0 p0 a0 Hp0 Ha0. rewrite !get_set. cbn [sup_add]. rewrite !sup_of_set. rewrite Z.mul_1_l.
+        unfold w_in, w_out, w_cur, complb, is_in, is_out, openb, amt. cbn. rewrite Ho, Htr, Hd, Ham. cbn.
+        destruct (eq_dec d0 d) as [->|Hdd].
+        -- rewrite Hp in Hp0. rewrite Ha in Ha0. inversion Hp0; inversion Ha0; subst p0 a0.
+           exists a2. split; [reflexivity|]. rewrite !Z.eqb_refl. unfold a2, lim_ok. cbn.
+           split; [lia|]. split; [lia|]. split; [lia|]. split; [lia|].
+           split; [destruct (ap_tl p); repeat split; try lia; intros; try lia; discriminate|].
+           intros Htl. rewrite Htl. lia.
+        -- exists a0. split; [exact Ha0|].
+           replace (d =? d0) with false by (symmetry; apply Z.eqb_neq; congruence).
+           replace (d0 =? d) with false by (symmetry; apply Z.eqb_neq; congruence).
+           split; [lia|]. split; [lia|]. split; [lia|]. split; [lia|].
+           split; [exact (inv_lim _ _ _ _ I Hp0 Ha0)|]. intros; lia.
+      * unfold close_events, is_in. rewrite Htr, Hd, Ham. reflexivity.
+    + (* outgoing: decrement outgoing and current, burn *)
+      cbn in Gout, Gesc.
+      assert (F1 : dec_outgoing x p a = Some (mkAS (as_in a) (as_out a - x) (as_cur a) (as_tlc a) (as_el a))).
+      { unfold dec_outgoing. replace (as_out a - x <? 0) with false by (symmetry; apply Z.ltb_ge; lia). reflexivity. }
+      rewrite (with_asset_ok _ _ _ _ _ _ Ha Hp F1).
+      set (a1 := mkAS (as_in a) (as_out a - x) (as_cur a) (as_tlc a) (as_el a)).
+      set (a2 := mkAS (as_in a) (as_out a - x) (as_cur a - x) (as_tlc a) (as_el a)).
+      assert (F2 : dec_current x p a1 = Some a2).
+      { unfold dec_current, a1, a2. cbn.
+        replace (as_cur a - x <? 0) with false by (symmetry; apply Z.ltb_ge; lia). reflexivity. }
+      match goal with |- context [with_asset ?s1 d (dec_current x)] =>
+        rewrite (with_asset_ok s1 d (dec_current x) a1 p a2 (get_set_same _ _ _) Hp F2) end.
+      unfold burn, set_bank_log. sproj. cbn [debit_coins]. unfold debit.
+      replace ((0 <=? x) && (x <=? bal (st_bank s) ESC d)) with true
+        by (symmetry; apply andb_true_iff; split; apply Z.leb_le; lia).
+      eexists. split; [reflexivity|].
+      unfold dequeue, set_contract. constructor; sproj; try reflexivity; try assumption; try discriminate.
+      * intros d0. unfold w_esc, locksb, is_out, openb, amt. rewrite Ho, Htr, Hd, Ham. cbn.
+        destruct (Z.eqb_spec d d0) as [->|Hdd].
+        -- unfold bal at 1. rewrite get_set_same. lia.
+        -- unfold bal at 1. rewrite get_set_other by pne. fold (bal (st_bank s) ESC d0). lia.
+      * intros d0 p0 a0 Hp0 Ha0. rewrite !get_set. cbn [sup_add]. rewrite !sup_of_set. replace (-1 * x) with (- x) by lia.
+        unfold w_in, w_out, w_cur, complb, is_in, is_out, openb, amt. cbn. rewrite Ho, Htr, Hd, Ham. cbn.
+        destruct (eq_dec d0 d) as [->|Hdd].
+        -- rewrite Hp in Hp0. rewrite Ha in Ha0. inversion Hp0; inversion Ha0; subst p0 a0.
+           exists a2. split; [reflexivity|]. rewrite !Z.eqb_refl. unfold a2, lim_ok. cbn.
+           split; [lia|]. split; [lia|]. split; [lia|]. split; [lia|].
+           split; [repeat split; try lia; exact L4|]. intros; lia.
+        -- exists a0. split; [exact Ha0|].
+           replace (d =? d0) with false by (symmetry; apply Z.eqb_neq; congruence).
+           replace (d0 =? d) with false by (symmetry; apply Z.eqb_neq; congruence).
+           split; [lia|]. split; [lia|]. split; [lia|]. split; [lia|].
+           split; [exact (inv_lim _ _ _ _ I Hp0 Ha0)|]. intros; lia.
+      * unfold close_events, is_in, is_out. rewrite Htr, Hd, Ham. reflexivity.
+  - (* ordinary contract: pay the recipient out of escrow *)
+    unfold pay_out. rewrite Hbl.
+    destruct (send_coins_ok (c_amount c) (st_bank s) ESC (c_to c) Hne Hpos) as [l' Hsend].
+    { intros d0. pose proof (esc_ge _ _ _ d0 I Hg) as G. unfold w_esc, locksb, openb, amt in G.
+      rewrite Ho, Htr in G. exact G. }
+    rewrite Hsend. eexists. split; [reflexivity|].
+    unfold dequeue, set_contract, set_bank_log. constructor; sproj; try reflexivity; try assumption; try discriminate.
+    + intros d0. rewrite (send_coins_bal _ _ _ _ _ Hne Hsend ESC d0). rewrite Z.eqb_refl, Hescto.
+      unfold w_esc, locksb, openb, amt. rewrite Ho, Htr. cbn. lia.
+    + intros d0 p0 a0 Hp0 Ha0. exists a0. split; [exact Ha0|].
+      unfold w_in, w_out, w_cur, complb, is_in, is_out. cbn. rewrite Htr. cbn. rewrite !andb_false_r.
+      split; [lia|]. split; [lia|]. split; [lia|]. split; [lia|].
+      split; [exact (inv_lim _ _ _ _ I Hp0 Ha0)|]. intros; lia.
+    + unfold close_events, is_in, is_out. rewrite Htr. reflexivity.
+Qed.
